@@ -6,6 +6,6 @@ PROFILE = {'p_write': 0.6, 'raise_bias': True}
 
 
 def main(tier, seed):
-    return dbtie.db_check("C11", tier, seed, PROFILE, 300, 6000, "Prop_C11",
+    return dbtie.db_check("C11", tier, seed, PROFILE, 500, 6000, "Prop_C11",
                           "user callables and re are an environment the theorems quantify over; the tie instantiates them with the twin table")
 
